@@ -139,6 +139,8 @@ pub struct Run {
     pub assumptions: Vec<String>,
     pub rule: String,
     pub level_note: String,
+    /// shrink budget for random parts (lower it for cases that cost many child processes)
+    pub shrink_iters: u32,
     t0: Instant,
 }
 
@@ -163,6 +165,7 @@ impl Run {
             assumptions: vec![],
             rule: String::new(),
             level_note: String::new(),
+            shrink_iters: 400,
             t0: Instant::now(),
         }
     }
@@ -259,6 +262,7 @@ impl Run {
         let stats = &self.stats;
         let prop = self.prop;
         let seed = self.seed;
+        let shrink_iters = std::env::var("BWV_SHRINK").ok().and_then(|s| s.parse().ok()).unwrap_or(self.shrink_iters);
         let t0 = Instant::now();
         let before = stats.evaluations.load(Ordering::Relaxed);
         let found: Mutex<Vec<Violation>> = Mutex::new(vec![]);
@@ -274,7 +278,7 @@ impl Run {
                             cases: per,
                             rng_seed: RngSeed::Fixed(wseed),
                             failure_persistence: None,
-                            max_shrink_iters: std::env::var("BWV_SHRINK").ok().and_then(|s| s.parse().ok()).unwrap_or(400),
+                            max_shrink_iters: shrink_iters,
                             max_global_rejects: 65536,
                             ..Config::default()
                         });
